@@ -11,6 +11,7 @@
     (least number of whole nodes; agent figures = job figures)."""
 
 import os
+import json
 import math
 import importlib
 
@@ -135,6 +136,41 @@ def monitor_size(row, pd, smt, res):
     return None
 
 
+def rc_canon(rc):
+    d = rc.as_dict() if hasattr(rc, 'as_dict') else dict(rc)
+    d.pop('schemas', None)
+    return json.loads(json.dumps(d, sort_keys=True, default=str))
+
+
+def history_diff(rp, label, schemas):
+    """resolve `label` under its schemas in the given order in one session and in the opposite order in
+    another; returns (schema, differing keys) if a configuration depends on the order"""
+    s1, _ = make_session_one(rp, label)
+    s2, _ = make_session_one(rp, label)
+    a = {sc: rc_canon(s1.get_resource_config(label, sc)) for sc in schemas}
+    b = {sc: rc_canon(s2.get_resource_config(label, sc)) for sc in reversed(schemas)}
+    for sc in schemas:
+        if a[sc] != b[sc]:
+            keys = [k for k in set(a[sc]) | set(b[sc]) if a[sc].get(k) != b[sc].get(k)]
+            return sc, {k: (a[sc].get(k), b[sc].get(k)) for k in keys}
+    return None
+
+
+def make_session_one(rp, label):
+    """a session that knows only the platform `label` (cheap)"""
+    import radical.utils as ru
+    from radical.pilot.resource_config import ResourceConfig
+    site, res = label.split('.', 1)
+    rcfgs = ru.Config('radical.pilot.resource', name=site, expand=False)
+    s = object.__new__(rp.Session)
+    s._rcfgs = ru.Config()
+    s._log   = rpload.NullLog()
+    s._rcfgs[site] = ru.Config()
+    src = rcfgs[site] if site in rcfgs else rcfgs
+    s._rcfgs[site][res] = ResourceConfig(src[res])
+    return s, []
+
+
 def real_factories(rp, rc):
     """the names a resolved platform carries, through the real factories (constructors stubbed):
     returns [(kind, name)] for every name a factory does not know"""
@@ -213,6 +249,15 @@ def run(ctx):
                          % (what, name, r['label'], schema), {'kind': 'resolve', 'label': r['label'], 'schema': schema})
     ctx.obligation('translator rows == real Session.get_resource_config (%d resource x schema pairs, exhaustive)'
                    % len(seen), 'tie', not bad_tie, str(bad_tie[:2]))
+    # what a platform resolves to does not depend on what the session resolved before: the same pairs in
+    # the opposite order in a second session give the same configurations
+    for label in sorted(set(k[0] for k in seen)):
+        schemas = [k[1] for k in sorted(seen, key=lambda k: (k[0], str(k[1]))) if k[0] == label]
+        diff = history_diff(rp, label, schemas)
+        ctx.case({'history': label, 'schemas': schemas}, nontrivial=len(schemas) > 1)
+        if diff:
+            ctx.fail('platform-resolution-depends-on-earlier-resolutions:%s' % label,
+                     '%s under schema %s: %s' % (label, diff[0], diff[1]), {'kind': 'history', 'label': label, 'schemas': schemas})
     # factories: the class named by the AST really imports
     fac_bad = []
     for name, rel, func in translate.FACTORIES:
@@ -301,6 +346,10 @@ def replay(ctx, data):
     rp = rpload.load()
     i  = data['input']
     sess, errs = make_session(rp)
+    if i['kind'] == 'history':
+        diff = history_diff(rp, i['label'], i['schemas'])
+        print('observed:', diff)
+        return not diff
     if i['kind'] == 'resolve':
         try:
             rc = sess.get_resource_config(i['label'], i['schema'])
